@@ -163,16 +163,32 @@ Definition garbage (s : state) (G : list nat) : bool :=
 Definition collect (s : state) (G : list nat) : state :=
   if garbage s G then fold_left dealloc G s else s.
 
-(* everything reachable from the variables: [next s] rounds of marking *)
-Definition mark_step (s : state) (R : list nat) : list nat :=
-  filter (fun i => mem i R || existsb (fun j => mem j R && mem i (refs_of (get s j))) (ids s)) (ids s).
-Fixpoint iter {A} (n : nat) (f : A -> A) (x : A) : A :=
-  match n with O => x | S n' => iter n' f (f x) end.
+(* everything reachable from the variables: depth-first marking over a table of the reference
+   lists (computed once); the fuel covers every node and every edge *)
+Fixpoint dfs (fuel : nat) (table : list (list nat)) (todo visited : list nat) : list nat :=
+  match fuel with
+  | O => visited
+  | S f =>
+      match todo with
+      | [] => visited
+      | i :: rest =>
+          if mem i visited then dfs f table rest visited
+          else dfs f table (nth i table [] ++ rest) (i :: visited)
+      end
+  end.
 Definition reachable (s : state) : list nat :=
-  iter (next s) (mark_step s)
-       (filter (fun i => alive (get s i) && (0 <? roots (get s i))) (ids s)).
+  let objl := map (get s) (ids s) in
+  let table := map refs_of objl in
+  let rootl := filter (fun i => let o := nth i objl dead_obj in alive o && (0 <? roots o)) (ids s) in
+  let fuel := S (length rootl + next s + fold_left (fun n l => n + length l) table 0) in
+  dfs fuel table rootl [].
 Definition unreachable (s : state) : list nat :=
   filter (fun i => alive (get s i) && negb (mem i (reachable s))) (ids s).
+
+(* the same state with the object table stored as a list (no semantic content: every object
+   is unchanged, see Proofs.compact_get; it keeps the evaluation of long histories fast) *)
+Definition compact (s : state) : state :=
+  mkstate (let l := map (objs s) (seq 0 (next s)) in fun i => nth i l dead_obj) (next s).
 
 Inductive op :=
 | ONew (a : nat)                                   (* v = ffi.new("int[4]") *)
@@ -274,7 +290,7 @@ Definition step (s : state) (o : op) : state :=
         match k (get s h) with KHandle x => hold s x | _ => s end
       else s
   | OCollect G => collect s G
-  | OCollectAuto => collect s (unreachable s)
+  | OCollectAuto => compact (collect s (unreachable s))
   end.
 
 Definition run (ops : list op) : state := fold_left step ops init.
